@@ -599,6 +599,7 @@ func (b *binderProc) runStep(st *Step) (out int) {
 			s.mu.Lock()
 			s.pend = nil // a dead process handles no event; they are gone when it comes back
 			s.mu.Unlock()
+			b.start() // the process memory (group locks included) is gone
 		}
 		s.mu.Lock()
 		st.Calls = append([]string(nil), s.calls...)
